@@ -19,7 +19,7 @@ open Proto
 
 def dispatch (cmd : String) (a : Args) : Except String String :=
   if cmd.startsWith "req." || cmd.startsWith "resp." || cmd == "rc" || cmd.startsWith "svc." then Drv.Msg.run cmd a
-  else if cmd.startsWith "spec.did" || cmd.startsWith "spec.rid" || cmd == "spec.subfn" || cmd == "spec.first" then Drv.Names.run cmd a
+  else if cmd.startsWith "spec.did" || cmd.startsWith "spec.rid" || cmd == "spec.subfn" || cmd == "spec.first" || cmd == "spec.iso" then Drv.Names.run cmd a
   else if cmd.startsWith "codec." then Drv.Codecs.run cmd a
   else if cmd == "send" then Drv.Send.run cmd a
   else if cmd == "deliver" || cmd == "sendd" then Drv.Client.run cmd a
